@@ -104,3 +104,30 @@ Theorem C13_read_cancel_from_source :
                 (BinInt.Z.to_nat Gen.Consts.maxEventsInFlight) (dur Gen.Consts.eventTimeout_ns) p)).
 Proof. exact AuditIRTie.read_arm_cancel_from_source. Qed.
 Print Assumptions C13_read_cancel_from_source.
+
+(* ---------- which context each worker watches: the closures of RunNamedPipe, read from the source ----------
+   Gen/WorkerBodies.v is REGENERATED on every run from the three closures RunNamedPipe hands to eg.Go and from the
+   constructors they call; Model/WorkerWiring.v normalises them (local variables substituted, constructors
+   inlined).  Every worker's entry method (Ingest / Read) is called with the errgroup's context — the one that is
+   cancelled when a sibling fails or the process is signalled — and the context stored in the sshd processor is that
+   same context (not the process context, not a fresh one). *)
+From AM Require Import Model.WorkerWiring Gen.WorkerBodies Proofs.WorkerWiringTie.
+Theorem C13_worker_wiring_from_source : all_eq normalised expected = true.
+Proof. exact worker_wiring_from_source. Qed.
+Print Assumptions C13_worker_wiring_from_source.
+
+Theorem C13_workers_run_on_group_context :
+  forallb (fun i => match ret_of i with Some (WMethod _ _ [WVar "groupCtx"]) => true | _ => false end) [0; 1; 2] = true /\
+  opt_weq (bind_opt (bind_opt (bind_opt (ret_of 0) recv_of) (field_of "SshdProcessor")) (field_of "ctx")) (WVar "groupCtx") = true /\
+  resolve_shared gen_shared "groupCtx" = Some (WResult (WCall "errgroup.WithContext" [WVar "ctx"]) 1) /\
+  resolve_shared gen_shared "eg" = Some (WResult (WCall "errgroup.WithContext" [WVar "ctx"]) 0).
+Proof. exact workers_run_on_group_context. Qed.
+Print Assumptions C13_workers_run_on_group_context.
+
+(* the line buffer the audit ingester fills is the one the audit processor drains, with the generated capacity *)
+Theorem C13_audit_line_buffer_wiring :
+  opt_weq (bind_opt (bind_opt (ret_of 1) recv_of) (field_of "AuditLogChan")) (WVar "auditLogChan") = true /\
+  opt_weq (bind_opt (bind_opt (ret_of 2) recv_of) (field_of "Audits")) (WVar "auditLogChan") = true /\
+  resolve_shared gen_shared "auditLogChan" = Some (WMake "chan string" (Some (WInt Gen.Consts.auditLogChanBufSize))).
+Proof. exact audit_line_buffer_wiring. Qed.
+Print Assumptions C13_audit_line_buffer_wiring.
